@@ -323,3 +323,63 @@ package dsl
 //@   property C19
 //@   ensures pow_promotes_by_common_type: typeof(node) == *BinaryExpression && called(GetCommonType) && !called(validationError) && typeof(result) == *BinaryExpression && result.(*BinaryExpression) != nil && result.(*BinaryExpression).Operator == BinaryOpPow && result.(*BinaryExpression).ResolvedType != nil ==> (GetKindIfPrimitive(commonOf()).r0 == PrimitiveKindInteger ==> result.(*BinaryExpression).ResolvedType == Float64Type) && (GetKindIfPrimitive(commonOf()).r0 != PrimitiveKindInteger ==> result.(*BinaryExpression).ResolvedType == commonOf())
 //@   ensures small_integers_promote_to_int32: typeof(node) == *BinaryExpression && called(GetCommonType) && !called(validationError) && typeof(result) == *BinaryExpression && result.(*BinaryExpression) != nil && result.(*BinaryExpression).Operator != BinaryOpPow && result.(*BinaryExpression).ResolvedType != nil ==> ((GetPrimitiveType(commonOf()).primitive == Int8 || GetPrimitiveType(commonOf()).primitive == Uint8 || GetPrimitiveType(commonOf()).primitive == Int16 || GetPrimitiveType(commonOf()).primitive == Uint16) ==> result.(*BinaryExpression).ResolvedType == Int32Type) && (!(GetPrimitiveType(commonOf()).primitive == Int8 || GetPrimitiveType(commonOf()).primitive == Uint8 || GetPrimitiveType(commonOf()).primitive == Int16 || GetPrimitiveType(commonOf()).primitive == Uint16) ==> result.(*BinaryExpression).ResolvedType == commonOf())
+
+// ---- C09 / C04: visitor callbacks must keep descending, otherwise a construct nested deeper is never looked at --
+// Cycle detection / dependency sort: a type reference always descends into its type arguments (a cycle can close
+// through an argument of an imported generic), whatever namespace the referenced definition lives in.
+//@ func topologicalSortTypes@emits:"there is a reference cycle, which is not supported, within namespace '%s': %s"
+//@   property C09,C13
+//@   ensures type_references_always_descend: typeof(node) == *SimpleType && node.(*SimpleType) != nil ==> called("dsl.(VisitorWithContext[Node]).VisitChildren")
+//@   ensures fields_always_descend: typeof(node) == *Field && node.(*Field) != nil ==> called("dsl.(VisitorWithContext[Node]).VisitChildren")
+
+// Schema closure: every type reference descends (type arguments of a second use of the same generic may name types
+// that are reachable in no other way).
+//@ func GetProtocolSchema$1
+//@   property C04,C13
+//@   ensures type_references_always_descend: typeof(node) == *SimpleType && node.(*SimpleType) != nil ==> called("dsl.(Visitor).VisitChildren") && called("dsl.(Visitor).Visit")
+//@   ensures generalized_types_always_descend: typeof(node) == *GeneralizedType ==> called("dsl.(Visitor).VisitChildren")
+
+// ---- C06: "changing the type arguments to a generic type" is incompatible: whenever EITHER use site spells type
+// arguments (and the definitions are not already incompatible), the type arguments of the base definitions are compared.
+//@ func compareSemanticallyEquivalentTypes
+//@   property C06
+//@   requires newType != nil && oldType != nil
+//@   ensures generic_arguments_are_compared: (len(newType.TypeArguments) > 0 || len(oldType.TypeArguments) > 0) && typeof(result) != *TypeChangeIncompatible ==> called(getBaseDefinition)
+
+// ---- C09: individual rules. "grew" = the pass reported at least one more error. ---------------------------------
+// A map key must be a primitive scalar type (aliases are looked through by GetUnderlyingType).
+//@ spec func keyUnderlying(m *Map) Type = GetUnderlyingType(m.KeyType)
+//@ spec func keyIsPrimitive(m *Map) bool = typeof(keyUnderlying(m)) == *SimpleType && keyUnderlying(m).(*SimpleType) != nil && (keyUnderlying(m).(*SimpleType).ResolvedDefinition == nil || typeof(keyUnderlying(m).(*SimpleType).ResolvedDefinition) == PrimitiveDefinition)
+//@ func validateMaps$1
+//@   property C09
+//@   requires errorSink != nil
+//@   ensures everything_but_maps_descends: typeof(node) != *Map ==> called("dsl.(Visitor).VisitChildren")
+//@   ensures non_primitive_key_is_an_error: typeof(node) == *Map && node.(*Map) != nil && !keyIsPrimitive(node.(*Map)) ==> len(errorSink.Errors) == old(len(errorSink.Errors)) + 1
+//@   ensures primitive_key_is_accepted: typeof(node) == *Map && node.(*Map) != nil && keyIsPrimitive(node.(*Map)) ==> len(errorSink.Errors) == old(len(errorSink.Errors))
+
+// Array dimension rules are checked on every array, and the pass always descends (arrays nest inside vectors, maps ...).
+//@ func validateArrayAndVectorDimensions$1
+//@   property C09
+//@   ensures always_descends: called("dsl.(Visitor).VisitChildren")
+
+// A stream is only legal directly as a protocol step: the nearest enclosing definition must be a protocol.
+//@ func validateStreams$1
+//@   property C09
+//@   requires errorSink != nil
+//@   ensures always_descends: called("dsl.(VisitorWithContext[Node]).VisitChildren")
+//@   ensures stream_outside_protocol_is_an_error: typeof(node) == *Stream && typeof(context) != *ProtocolDefinition ==> len(errorSink.Errors) == old(len(errorSink.Errors)) + 1
+//@   ensures stream_in_protocol_is_accepted: typeof(node) == *Stream && typeof(context) == *ProtocolDefinition ==> len(errorSink.Errors) == old(len(errorSink.Errors))
+
+// Name rules: every definition other than the one being named is descended into.
+//@ func validateTypeDefinitionNames$1
+//@   property C09
+//@   ensures non_definitions_descend: !(typeof(node) == TypeDefinition) ==> called("dsl.(Visitor).VisitChildren")
+//@ func validateRecordFieldNames$1
+//@   property C09
+//@   ensures non_records_descend: typeof(node) != *RecordDefinition ==> called("dsl.(Visitor).VisitChildren")
+//@ func validateProtocolSequenceNames$1
+//@   property C09
+//@   ensures non_protocols_descend: typeof(node) != *ProtocolDefinition ==> called("dsl.(Visitor).VisitChildren")
+//@ func validateEnums$1
+//@   property C09
+//@   ensures non_enums_descend: typeof(node) != *EnumDefinition ==> called("dsl.(Visitor).VisitChildren")
